@@ -87,18 +87,25 @@ T = lambda s: CaptionNode.create_text(s)
 
 
 def sample_sets(rng):
-    texts = ["hello", "two words", "Ünï çødé", "a & b", "x < y", "1", "12", "{1}{2}", "plain; text.", "it's \"quoted\""]
+    texts = ["hello", "two words", "Ünï çødé", "a & b", "x < y", "1", "12", "{1}{2}", "plain; text.", "it's \"quoted\"",
+             "x" * 33, "see www.example.org/captions/files/season1/episode12 now", "Donaudampfschifffahrtsgesellschaftskapitaen"]
     out = []
-    for i in range(12):
+    for i in range(14):
         caps = []
-        t = 10 ** 6
+        # integer microseconds, and the fractional times the SCC reader and adjust_caption_timing produce
+        t = 10 ** 6 if i % 3 else 1001000 * 10 / 30 * 3
         for j in range(rng.choice([1, 2, 3])):
-            nodes = [T(rng.choice(texts))]
+            nodes = [T(texts[(i + j) % len(texts)] if i < len(texts) else rng.choice(texts))]
             if rng.random() < 0.5:
                 nodes += [CaptionNode.create_break(), T(rng.choice(texts))]
-            caps.append(Caption(t, t + 2 * 10 ** 6, nodes))
+            caps.append(Caption(t, t + 2 * 10 ** 6 + (1 / 3 if i % 3 == 0 else 0), nodes))
             t += 5 * 10 ** 6
         out.append(CaptionSet({"en-US": CaptionList(caps)}))
+    # sets as the readers return them (conversions: every reader's result through every writer)
+    from props import samples
+    readers = {"srt": SRTReader, "webvtt": WebVTTReader, "dfxp": DFXPReader, "sami": SAMIReader, "microdvd": MicroDVDReader, "scc": SCCReader}
+    for fmt, docs in samples.all_docs().items():
+        out.append(readers[fmt]().read(docs[0]))
     return out
 
 
@@ -118,7 +125,10 @@ def bounded(ctx, b):
              (MicroDVDWriter, MicroDVDReader), (SCCWriter, SCCReader)]
     for cs in sample_sets(rng):
         for Wr, Rd in pairs:
-            doc = Wr().write(cs)
+            try:
+                doc = Wr(video_width=640, video_height=360).write(cs) if Wr in (WebVTTWriter, DFXPWriter, SAMIWriter) else Wr().write(cs)
+            except pycaption.exceptions.RelativizationError:
+                continue            # the writer refuses (rightly) to convert a layout: no document to detect
 
             def one(doc=doc, Rd=Rd):
                 got = detect_format(doc)
